@@ -124,6 +124,15 @@ func (cl *Cluster) finish() {
 		switch {
 		case stuck < 0:
 			c.Probe("progress-after-byz-turn")
+		case cl.recoverSeen:
+			// Recover mode can deadlock without any Byzantine help: locks taken
+			// before the switch survive it, while the locked block (Recover=0) can
+			// no longer be proposed (ProposalBlock.Recover != cs.recover) and the
+			// vote sets were reset, so locked and unlocked nodes never meet on one
+			// prevote again. That is a liveness defect of recover mode, outside the
+			// statement of C02 (DESIGN.md, section 11): the wedge is not attributed
+			// to the Byzantine proposer here.
+			c.Probe("stuck-in-recover-mode-not-judged")
 		case cl.now-since >= 90*time.Second:
 			c.Violate("wedged", "C02/wedge", "node %d committed nothing in %v of fault-free virtual time after a Byzantine proposer's invalid block", stuck, cl.now-since)
 		default:
@@ -145,6 +154,8 @@ func (cl *Cluster) finish() {
 		switch {
 		case stuck < 0:
 			c.Probe("progress-after-hostile-traffic")
+		case cl.recoverSeen:
+			c.Probe("stuck-in-recover-mode-not-judged") // see the validation mode above
 		case cl.now-since >= 90*time.Second:
 			c.Violate("halted", "C16/halted", "node %d committed nothing in %v of quiet virtual time after hostile peer traffic", stuck, cl.now-since)
 		default:
@@ -178,7 +189,7 @@ func (cl *Cluster) finish() {
 	for _, n := range cl.honest() {
 		if n.cs != nil {
 			rs := n.roundState()
-			final = append(final, fmt.Sprintf("node%d alive=%v failed=%v H=%d R=%d S=%v store=%d proposal=%v block=%v locked=%v", n.idx, n.alive, n.failed, rs.Height, rs.Round, rs.Step, n.chain.BlockStore.Height(), rs.Proposal != nil, rs.ProposalBlock != nil, rs.LockedBlock != nil))
+			final = append(final, fmt.Sprintf("node%d alive=%v failed=%v H=%d R=%d S=%v store=%d proposal=%v block=%v locked=%v recover-mode=%v recover-count=%d locked-round=%d", n.idx, n.alive, n.failed, rs.Height, rs.Round, rs.Step, n.chain.BlockStore.Height(), rs.Proposal != nil, rs.ProposalBlock != nil, rs.LockedBlock != nil, n.cs.VerifStepRecover(), n.cs.VerifRecoverCount(), rs.LockedRound))
 			if os.Getenv("VERIF_DEBUG") != "" && rs.Votes != nil {
 				final = append(final, rs.Votes.StringIndented("    "))
 			}
